@@ -25,13 +25,17 @@ RULE = (
     "directions) for aligned values; a non-aligned float lands on one of its two neighbouring microseconds (this is "
     "order preservation between the aligned neighbours); a<=b => conv(a)<=conv(b) for all six conversions, strict for "
     "distinct aligned values; datetime results are timezone-aware. Non-trivial: a value has a non-zero sub-second "
-    "part. now: every Scheduler subclass found by introspection x constructor/singleton x clock values x process "
+    "part. wide: the same three kinds over everything a datetime can represent (years 1..9999, up to 2.5e11 s): "
+    "datetime<->timedelta conversions and their round trips stay exact (integer arithmetic) and strictly monotone; "
+    "whatever passes through float seconds is judged with the stated tolerance of 1 us + 1 ulp of the seconds value "
+    "(2x for a there-and-back trip), float -> datetime/timedelta within 1 us of the exact value, and order is "
+    "preserved (weakly) by every conversion; non-trivial = |t| > 2**32 s. now: every Scheduler subclass found by introspection x constructor/singleton x clock values x process "
     "time zone (host zone, TZ=XXX-5:30, TZ=YYY+8 via time.tzset(), restored afterwards); oracle: now is a datetime "
     "with utcoffset() == 0. Distinct = distinct case JSON. atheris (thorough): the conv "
     "strategy+oracle driven by libFuzzer through hypothesis.fuzz_one_input."
 )
 ASSUMPTIONS = [
-    "floats are limited to |t| <= 2**32 s, where a double still resolves microseconds; beyond that exact round trips are not representable",
+    "exact float round trips are only demanded for |t| <= 2**32 s, where a double still resolves microseconds; beyond that (check 'wide') a tolerance of 1 us + 1 ulp is stated",
     "datetimes are timezone-aware (naive datetimes cannot be subtracted from the UTC epoch and are outside the quantifier)",
     "HistoricalScheduler is given UTC initial clocks only (with a non-UTC aware clock its now keeps the caller's tzinfo)",
     "event-loop/main-loop schedulers are constructed around inert stub loop objects; only their now property is read",
@@ -368,6 +372,133 @@ def _conv_case(draw):
 
 
 # ---------------------------------------------------------------------------------------
+# wide regime: the whole range a datetime can represent (years 1..9999), far beyond 2**32 s.
+# Doubles no longer resolve microseconds there, so everything that passes through float seconds is judged with
+# a stated tolerance; the datetime <-> timedelta conversions are integer arithmetic and stay exact.
+
+WIDE_LO_S, WIDE_HI_S = -62135500000, 253402200000  # inside datetime.min/max with a day of margin for tz offsets
+
+
+def _tol_us(seconds_value):
+    """Stated tolerance for a value that went through float seconds: one microsecond plus one ulp of the seconds value."""
+    return 1 + Fraction(math.ulp(float(seconds_value))) * 10**6
+
+
+def _run_wide(case):
+    S = _cls(case["cls"])
+    kind = case["kind"]
+    cls = [f"wide:{kind}"]
+    rows = []
+    nontrivial = False
+    for key in ("a", "b"):
+        e = case[key]
+        if kind == "float":
+            x, fr = _dec_float(e)
+            k_exact = fr * 10**6
+            if abs(fr) > MAXS:
+                nontrivial = True
+            d, t = S.to_datetime(x), S.to_timedelta(x)
+            bad = _check_dt_result(d, "to_datetime(float)", case)
+            if bad:
+                return bad
+            if not isinstance(t, timedelta):
+                return FAIL("type|to_timedelta(float)", f"got {type(t).__name__} case={case}")
+            du, tu = _us_of_dt(d), _us_of_td(t)
+            for what, u in (("to_datetime(float)", du), ("to_timedelta(float)", tu)):
+                if abs(u - k_exact) > 1:
+                    return FAIL(f"wide:accuracy|{what}", f"x={x!r} is {float(k_exact)} us but -> {u} us (more than 1 us off); case={case}", classes=cls)
+            for what, back in (("to_seconds.to_datetime", S.to_seconds(d)), ("to_seconds.to_timedelta", S.to_seconds(t))):
+                if abs(Fraction(back) - fr) * 10**6 > _tol_us(x):
+                    return FAIL(f"wide:roundtrip|{what}", f"x={x!r} -> {back!r}: off by more than 1 us + 1 ulp; case={case}", classes=cls)
+            rows.append((fr, x, d, t))
+        else:
+            k = e["us"]
+            if abs(k) > MAXUS:
+                nontrivial = True
+            v = _dec_td(e) if kind == "td" else _dec_dt(e)
+            if kind == "td":
+                if S.to_timedelta(v) is not v:
+                    return FAIL("identity|to_timedelta", f"case={case}")
+                other = S.to_datetime(v)
+                bad = _check_dt_result(other, "to_datetime(timedelta)", case)
+                if bad:
+                    return bad
+                if _us_of_dt(other) != k:
+                    return FAIL("wide:exact|to_datetime(timedelta)", f"{v!r} -> {other.isoformat()}; case={case}", classes=cls)
+                if S.to_timedelta(other) != v:
+                    return FAIL("wide:roundtrip|to_timedelta.to_datetime", f"{v!r} -> {other.isoformat()} -> {S.to_timedelta(other)!r}; case={case}", classes=cls)
+            else:
+                if S.to_datetime(v) is not v:
+                    return FAIL("identity|to_datetime", f"case={case}")
+                other = S.to_timedelta(v)
+                if not isinstance(other, timedelta) or _us_of_td(other) != k:
+                    return FAIL("wide:exact|to_timedelta(datetime)", f"{v.isoformat()} is {k} us after the epoch -> {other!r}; case={case}", classes=cls)
+                back = S.to_datetime(other)
+                bad = _check_dt_result(back, "to_datetime(timedelta)", case)
+                if bad:
+                    return bad
+                if back != v:
+                    return FAIL("wide:roundtrip|to_datetime.to_timedelta", f"{v.isoformat()} -> {other!r} -> {back.isoformat()}; case={case}", classes=cls)
+            sec = S.to_seconds(v)
+            if isinstance(sec, bool) or not isinstance(sec, (int, float)):
+                return FAIL(f"type|to_seconds({kind})", f"got {type(sec).__name__}; case={case}")
+            tol = _tol_us(sec)
+            if abs(Fraction(sec) * 10**6 - k) > tol:
+                return FAIL(f"wide:accuracy|to_seconds({kind})", f"{k} us -> {sec!r} s: off by more than 1 us + 1 ulp; case={case}", classes=cls)
+            for what, back_us in (("to_datetime", _us_of_dt(S.to_datetime(sec))), ("to_timedelta", _us_of_td(S.to_timedelta(sec)))):
+                if abs(back_us - k) > 2 * tol:
+                    return FAIL(f"wide:roundtrip|{what}.to_seconds({kind})", f"{k} us -> {sec!r} s -> {back_us} us: off by more than 2 us + 2 ulp; case={case}", classes=cls)
+            rows.append((k, v, sec, other))
+    rows.sort(key=lambda r: r[0])
+    (ka, _, pa, qa), (kb, _, pb, qb) = rows
+    if ka != kb:
+        cls.append("pair:distinct")
+    if not (pa <= pb and qa <= qb):
+        return FAIL(f"wide:order|{kind}", f"a<=b but converted values are out of order: {pa!r},{pb!r} / {qa!r},{qb!r}; case={case}", classes=cls)
+    if kind != "float" and ka != kb and not (qa < qb):
+        return FAIL(f"wide:order-strict|{kind}", f"distinct values collapse under the exact datetime<->timedelta conversion; case={case}", classes=cls)
+    if nontrivial:
+        cls.append("wide:beyond-2**32s")
+    return OK(nontrivial, cls)
+
+
+_wide_us = st.one_of(
+    st.integers(WIDE_LO_S * 10**6, WIDE_HI_S * 10**6),
+    st.builds(lambda s, u: s * 10**6 + u, st.integers(WIDE_LO_S, WIDE_HI_S - 1), st.sampled_from([0, 1, 499999, 500000, 999999])),
+    st.builds(lambda e, d, sg: max(WIDE_LO_S * 10**6, min(WIDE_HI_S * 10**6, sg * (1 << e) * 10**6 + d)), st.integers(31, 37), st.integers(-3, 3), st.sampled_from([1, -1])),
+    st.sampled_from([WIDE_LO_S * 10**6, WIDE_HI_S * 10**6, MAXUS + 1, -MAXUS - 1, 2 * MAXUS + 1]),
+)
+
+
+@st.composite
+def _wide_case(draw):
+    kind = draw(st.sampled_from(["float", "td", "dt", "dt"]))
+    cls = draw(st.sampled_from(CLASSES))
+    near = draw(st.integers(0, 2)) == 0
+
+    def one():
+        k = draw(_wide_us)
+        if kind == "float":
+            if draw(st.booleans()):
+                return {"us": k}
+            x = draw(st.floats(float(WIDE_LO_S), float(WIDE_HI_S), allow_nan=False))
+            return {"hex": x.hex()}
+        if kind == "td":
+            return {"us": k}
+        return {"us": k, "off": draw(_off)}
+
+    a = one()
+    if near and "us" in a:
+        b = dict(a)
+        b["us"] = max(WIDE_LO_S * 10**6, min(WIDE_HI_S * 10**6, a["us"] + draw(st.sampled_from([-1, 0, 1, 1000000]))))
+        if kind == "dt":
+            b["off"] = draw(_off)
+    else:
+        b = one()
+    return {"kind": kind, "cls": cls, "a": a, "b": b}
+
+
+# ---------------------------------------------------------------------------------------
 # scheduler.now
 
 
@@ -559,6 +690,7 @@ def _run_atheris(case):
 def checks(tier):
     return [
         Check("conv", _run_conv, strategy=_conv_case(), examples={"quick": 20000, "thorough": 16 * 150000}, shards={"quick": 4, "thorough": 16}),
+        Check("wide", _run_wide, strategy=_wide_case(), examples={"quick": 6000, "thorough": 16 * 40000}, shards={"quick": 4, "thorough": 16}),
         Check("now", _run_now, cases=_now_cases, shards={"quick": 1, "thorough": 1}, exhaustive=True),
         Check("atheris", _run_atheris, cases=_atheris_cases, shards={"quick": 1, "thorough": 16}),
     ]
